@@ -91,6 +91,9 @@ class SetupRig:
         self.tx = [0] * N
         self.vtx = [0] * N
         self.in_versions = False
+        self.dead = False
+        self.sensors_seen = False
+        self.th_decodable = False    # a thermostat answer was handled after the sensor data told how many there are
         self.extra = []
 
         async def on_loaded(value):
@@ -148,14 +151,29 @@ class SetupRig:
         return out
 
     def apply(self, ev):
+        if self.dead:
+            return []
+        try:
+            return self._apply(ev)
+        except RuntimeError as e:
+            if "no quiescence" not in str(e):
+                raise
+            self.dead = True
+            self.extra.append("the event loop never comes to rest: some task re-schedules itself for ever")
+            return []
+
+    def _apply(self, ev):
         p = ev.split(":")
         loop = self.loop
         if p[0] == "s":
+            self.sensors_seen = True
             tail = setm.SENSOR_TAIL if self.thermostats else SENSOR_TAIL_NO_THERMOSTATS
             self.device.handle_frame(setm.SensorDataMessage(sender=DeviceType.ECOMAX, message=bytearray(b"\x00" + tail)))
         elif p[0] == "a":
             k = int(p[1])
             if k < N:
+                if REQ_TYPES[k] == FT.REQUEST_THERMOSTAT_PARAMETERS and self.sensors_seen:
+                    self.th_decodable = True
                 fr = response_for(k, self.mixers, k in self.minimal)
                 if fr is not None:
                     self.device.handle_frame(fr)
@@ -184,8 +202,36 @@ class SetupRig:
         loop.settle()
         return self.drain()
 
+    def content_ok(self, k):
+        """the CONTENT of the answer given for kind k (chosen by frame type) can be retrieved from the device"""
+        d = self.device.data
+        ft = REQ_TYPES[k]
+        minimal = k in self.minimal
+        try:
+            if ft == FT.REQUEST_UID:
+                return bool(d["product"].model)
+            if ft == FT.REQUEST_REGULATOR_DATA_SCHEMA:
+                return len(d["regdata_schema"]) == 2
+            if ft == FT.REQUEST_ECOMAX_PARAMETERS:
+                return True if minimal else "airflow_power_100" in d
+            if ft == FT.REQUEST_ALERTS:
+                return d["total_alerts"] == 0 if minimal else (d["total_alerts"] == 1 and len(d["alerts"]) == 1)
+            if ft == FT.REQUEST_SCHEDULES:
+                return True if minimal else ("heating_schedule_parameter" in d and "heating" in d["schedules"])
+            if ft == FT.REQUEST_MIXER_PARAMETERS:
+                return "mixer_target_temp" in d["mixers"][0].data if self.mixers else True
+            if ft == FT.REQUEST_THERMOSTAT_PARAMETERS:
+                # (an answer handled before the first sensor data cannot be decoded: the thermostat count is unknown)
+                return "mode" in d["thermostats"][0].data if (self.thermostats and self.th_decodable) else True
+            if ft == FT.REQUEST_PASSWORD:
+                return d["password"] is None if minimal else d["password"] == "0000"
+        except (KeyError, AttributeError, TypeError, IndexError):
+            return False
+        return True
+
     def summary(self):
-        present = "".join("1" if n in self.device.data else "0" for n in NAMES)
+        # "available" = the name the request waits for is in device.data AND what was answered can be read back
+        present = "".join("1" if (n in self.device.data and self.content_ok(k)) else "0" for k, n in enumerate(NAMES))
         errs = self.errors()
         return dict(now=self.now(), present=present, tx=list(self.tx), vtx=list(self.vtx),
                     loaded_at=self.loaded_at if self.loaded_seen else None,
